@@ -44,9 +44,11 @@ def main():
                     h.dispatch(FileCreatedEvent(p))
                 elif r < 0.65:
                     p = rnd.choice(list(known))
-                    ev = ("created-duplicate", p)
                     if os.path.exists(p):
+                        ev = ("created-duplicate", p)
                         h.dispatch(FileCreatedEvent(p))
+                    else:
+                        ev = ("created-duplicate-of-vanished-file(not dispatched)", p)
                 elif r < 0.8:
                     p = rnd.choice(list(known))
                     ev = ("modified", p)
